@@ -75,6 +75,13 @@ def h_fail(n: int, j: int, k1: int, k2: int, k3: int, k4: int, limit: int, probe
                 elif kind == 'wrongrank':
                     yield np.ndarray(dt_of(numtype, bo), (ks[i],) + atom + (2,),
                                      Seq.of(('bad',), ks[i]))
+                elif kind == 'rankminus':
+                    # one axis short: a single row handed over without its leading axis (shape == atom),
+                    # for 1-D arrays a 0-d array
+                    if atom:
+                        yield np.ndarray(dt_of(numtype, bo), atom, Seq.of(('bad',), atom[0]))
+                    else:
+                        yield np.ndarray(dt_of(numtype, bo), (), Seq.of(('bad',), 1))
                 elif kind == 'unconvertible':
                     yield np.BadSeqItem(ValueError('could not convert string to float'))
                 elif kind == 'unconvertible_scalar':
@@ -143,6 +150,7 @@ def gen():
             if kind == 'iterraise': raise Boom()
             if kind == 'wrongatom': yield np.zeros((max(ks[i],1),) + ((3,) if atom == (2,) else (2,)), dtype=orig.dtype)
             elif kind == 'wrongrank': yield np.zeros((max(ks[i],1),) + atom + (2,), dtype=orig.dtype)
+            elif kind == 'rankminus': yield np.zeros(atom, dtype=orig.dtype)
             elif kind == 'unconvertible': yield ['x' for _ in range(3)]
             elif kind == 'unconvertible_scalar': yield object()
             return
@@ -254,12 +262,12 @@ def obligations(tier):
     if thorough:
         cfgs += [('uint8', 'little', (2, 3)), ('complex128', 'little', (1,)), ('int16', 'big', ())]
     obs = []
-    for kind in ('iterraise', 'wrongatom', 'wrongrank', 'unconvertible', 'unconvertible_scalar',
+    for kind in ('iterraise', 'wrongatom', 'wrongrank', 'rankminus', 'unconvertible', 'unconvertible_scalar',
                  'limit'):
         splits = []
         for (nt, bo, at) in cfgs:
-            if kind == 'wrongatom' and at == ():
-                at = (2,)
+            if kind in ('wrongatom', 'rankminus') and at == ():
+                at = (2,)          # (a 0-d chunk for a 1-D array is a number: compatible, see C03 form zerodim)
             splits.append(dict(kind=kind, numtype=nt, bo=bo, atom=at, F=F))
         if kind in ('limit', 'wrongatom'):
             splits.append(dict(kind=kind, numtype='int32', bo='little', atom=(2,), F=1, viaappend=True))
